@@ -22,7 +22,9 @@ import (
 
 	"github.com/gotd/td/bin"
 	"github.com/gotd/td/clock"
+	"github.com/gotd/td/mtproto"
 	"github.com/gotd/td/rpc"
+	"github.com/gotd/td/tgerr"
 )
 
 // Config is the engine configuration of one run.
@@ -91,6 +93,7 @@ type Notif struct {
 	casFor int64 // id passed to handler.cas (the call whose handler won the CAS)
 	hasCas bool
 	Err    error
+	Shape  int // delivery shape (wire.go)
 }
 
 type arrival struct{ t *thread }
@@ -103,28 +106,30 @@ type closer struct {
 
 // Sim is one engine under the scheduler.
 type Sim struct {
-	Cfg    Config
-	Eng    *rpc.Engine
-	clk    *neo.Time
-	calls  map[int64]*Call
-	order  []int64
-	notifs map[int64]*Notif
-	cur    *thread
-	arrive chan arrival
-	Trace  []Event
-	Viol   []Violation
-	ReqC   bool // ForceClose was called
-	Closed bool
-	closers []*closer
-	Src     Src // shape of the source: decides when a parked thread can be released
-	Lost   string // non-empty: the scheduler lost a thread (harness error)
-	Log    []string // transmissions id/seq/body in order
-	Stats  map[string]int
-	Watchdog time.Duration // how long a released thread may take to reach its next scheduling point
-	Pending  string        // label being applied (for retrying a run whose thread was lost)
-	wd       *time.Timer
-	fcloseAt int
-	Panicked bool
+	Cfg           Config
+	Eng           *rpc.Engine
+	clk           *neo.Time
+	calls         map[int64]*Call
+	order         []int64
+	notifs        map[int64]*Notif
+	cur           *thread
+	arrive        chan arrival
+	Trace         []Event
+	Viol          []Violation
+	ReqC          bool // ForceClose was called
+	Closed        bool
+	closers       []*closer
+	mtconn        *mtproto.Conn
+	serverMsgID   int64
+	Src           Src      // shape of the source: decides when a parked thread can be released
+	Lost          string   // non-empty: the scheduler lost a thread (harness error)
+	Log           []string // transmissions id/seq/body in order
+	Stats         map[string]int
+	Watchdog      time.Duration // how long a released thread may take to reach its next scheduling point
+	Pending       string        // label being applied (for retrying a run whose thread was lost)
+	wd            *time.Timer
+	fcloseAt      int
+	Panicked      bool
 	advAfterClose int // clock travels after ForceClose
 }
 
@@ -304,11 +309,26 @@ type output struct {
 }
 
 func (o *output) Decode(b *bin.Buffer) error {
+	cur := o.s.cur
 	res := o.s.park("decode")
-	v, _ := b.Long()
-	val := uint64(v)
 	c := o.c
+	var val uint64
+	malformed := false
+	if id, err := b.PeekID(); err != nil || id != fakeResultID {
+		// not the result object: the write is attributed to the notification being delivered
+		malformed = true
+		if cur != nil && cur.notif != nil {
+			val = cur.notif.Val
+		}
+	} else {
+		_ = b.ConsumeID(fakeResultID)
+		v, _ := b.Long()
+		val = uint64(v)
+	}
 	c.Writes = append(c.Writes, val)
+	if cur != nil && cur.notif != nil && cur.notif.IsErr {
+		o.s.viol("C24", "error-routed-as-result", "the RPC error %d for call %d (delivery shape %d) reached Output.Decode as if it were a result", cur.notif.Val, c.ID, cur.notif.Shape)
+	}
 	if c.Finished {
 		o.s.viol("C24", "write-after-return", "Output of call %d written (payload %d) after Do returned %s at step %d (now step %d)",
 			c.ID, val, c.Ret, c.retStamp, len(o.s.Trace))
@@ -317,7 +337,15 @@ func (o *output) Decode(b *bin.Buffer) error {
 		o.s.viol("C24", "multi-write", "Output of call %d written %d times: %v", c.ID, len(c.Writes), c.Writes)
 	}
 	if n := o.s.notifByVal(val); n == nil || n.Target != c.ID || n.IsErr {
-		o.s.viol("C24", "foreign-write", "Output of call %d received payload %d which was not addressed to it", c.ID, val)
+		if cur == nil || cur.notif == nil || !cur.notif.IsErr { // (the routing violation above already covers it)
+			o.s.viol("C24", "foreign-write", "Output of call %d received payload %d which was not addressed to it", c.ID, val)
+		}
+	}
+	if malformed {
+		if cur != nil && cur.notif != nil && !cur.notif.IsErr && cur.notif.Shape != ShapeNestedGz {
+			o.s.viol("C24", "result-body-mangled", "the result %d for call %d (delivery shape %d) reached Output.Decode with a different body", cur.notif.Val, c.ID, cur.notif.Shape)
+		}
+		return errDecode
 	}
 	if res == "err" {
 		return errDecode
@@ -338,7 +366,7 @@ func (s *Sim) notifByVal(v uint64) *Notif {
 
 type simClock struct{ s *Sim }
 
-func (c simClock) Now() time.Time { return c.s.clk.Now() }
+func (c simClock) Now() time.Time                      { return c.s.clk.Now() }
 func (c simClock) Ticker(d time.Duration) clock.Ticker { return c.s.clk.Ticker(d) }
 func (c simClock) Timer(d time.Duration) clock.Timer {
 	t := &simTimer{Timer: c.s.clk.Timer(d), s: c.s}
@@ -403,11 +431,17 @@ func (s *Sim) record(label, threadObs string) {
 func Classify(err error) string {
 	var rl *rpc.RetryLimitReachedErr
 	var re *rpcError
+	var te *tgerr.Error
 	switch {
 	case err == nil:
 		return "ok"
 	case errors.As(err, &re):
 		return fmt.Sprintf("rpc%d", re.code)
+	case errors.As(err, &te):
+		if te.Message != errorMessage(uint64(te.Code)) {
+			return fmt.Sprintf("other(tgerr %d %q)", te.Code, te.Message)
+		}
+		return fmt.Sprintf("rpc%d", te.Code)
 	case errors.Is(err, errDecode):
 		return "decodeErr"
 	case errors.Is(err, errSend):
